@@ -71,6 +71,16 @@
 //   - `fmt.Sprintf` with a constant format made of literal text, `%%` and the verbs %s %v (strings), %d %v
 //     (integers), %x %X %0Nx %0NX (integers) is a concatenation over `fmtDec` / `fmtHex` / `fmtHexI`; an argument
 //     whose type has a String/Error/Format/GoString method, any other verb or flag → rejected.
+//   - (sect.go) named types of the standard library by an explicit list: debug/pe.DataDirectory (the struct itself),
+//     crypto.Hash (UInt64, as Go's `uint`); *io.SectionReader is the prelude's `SectionReader` — the bytes that reading
+//     the section from its start delivers, the read position is NOT modelled: only io.NewSectionReader(
+//     bytes.NewReader(b), 0, len(b)) (`⟨b⟩`), io.NewSectionReader(sr, 0, sr.Size()) (`sr`) and handing one to something
+//     that reads it to the end (io.MultiReader, an io.Reader parameter — when the section reader was made for that
+//     call) are translated; io.ReaderAt and library interfaces embedding it are `ReaderAtRef`, a reference that can
+//     only be handed to external functions. io.MultiReader is the concatenation of what its parts deliver,
+//     buf.ReadFrom(r) appends everything r delivers. Write/Read/Next/ReadFrom on a buffer that is a FIELD rebinds
+//     the field and counts as writing through the receiver (the method returns the new receiver). `uint32(i)` of an
+//     int is UInt32.ofInt (mod 2^32).
 package main
 
 import (
@@ -221,7 +231,8 @@ func leanType(n ast.Node, t types.Type) string {
 			return "UInt16"
 		case types.Uint32:
 			return "UInt32"
-		case types.Uint64:
+		case types.Uint64, types.Uint:
+			// (Go's `uint` is 64 bits wide on every platform the library targets)
 			return "UInt64"
 		case types.Int16:
 			return "Int16"
@@ -269,6 +280,9 @@ func leanType(n ast.Node, t types.Type) string {
 			case "encoding/asn1.ObjectIdentifier":
 				return "(List Int)"
 			}
+		}
+		if lt, ok := stdNamedType(n, tt); ok {
+			return lt
 		}
 		if _, ok := byTypes[obj.Pkg().Path()]; !ok {
 			// a package of the library that is met through a type only (efivar): loaded on demand
@@ -403,7 +417,8 @@ func (t *fnTrans) ifaceCall(c *ast.CallExpr) (ast.Expr, *types.Func, bool) {
 		return nil, nil, false
 	}
 	rt := sel.Recv()
-	if isErrorType(rt) || isReaderType(rt) {
+	if isErrorType(rt) || isReaderType(rt) || isReaderAtRef(rt) {
+		// (an io.ReaderAt reference has no methods in the translation: such a call is "not a translation target")
 		return nil, nil, false
 	}
 	if _, isI := rt.Underlying().(*types.Interface); !isI {
@@ -996,6 +1011,9 @@ func (t *fnTrans) zero(n ast.Node, ty types.Type) string {
 	if isReaderType(ty) {
 		return "[]"
 	}
+	if z, ok := stdZero(ty); ok {
+		return z
+	}
 	switch u := ty.Underlying().(type) {
 	case *types.Basic:
 		switch {
@@ -1177,6 +1195,10 @@ func (t *fnTrans) call(c *ast.CallExpr) string {
 		}
 	case "fmt.Sprintf":
 		return t.sprintf(c)
+	case "io.NewSectionReader":
+		return t.newSectionReader(c)
+	case "io.MultiReader":
+		return t.multiReader(c)
 	}
 	if s, ok := t.byteOrderCall(c); ok {
 		return s
@@ -1189,6 +1211,15 @@ func (t *fnTrans) call(c *ast.CallExpr) string {
 	if se, ok := c.Fun.(*ast.SelectorExpr); ok && se.Sel.Name == "Len" && len(c.Args) == 0 {
 		if _, isR := t.readerVar(se.X); isR {
 			return fmt.Sprintf("(lenI %s)", t.expr(se.X))
+		}
+	}
+	if se, ok := c.Fun.(*ast.SelectorExpr); ok && len(c.Args) == 0 && (se.Sel.Name == "Bytes" || se.Sel.Name == "Len") {
+		// the same on a buffer / reader that is a field (`p.certTable.Bytes()`)
+		if lv, isLV := t.readerLV(se.X); isLV && isFieldPath(t.pi.info, lv) {
+			if se.Sel.Name == "Len" {
+				return fmt.Sprintf("(lenI %s)", t.expr(lv))
+			}
+			return t.expr(lv)
 		}
 	}
 	if se, ok := c.Fun.(*ast.SelectorExpr); ok && se.Sel.Name == "Cmp" && len(c.Args) == 1 {
@@ -1378,8 +1409,9 @@ func markMutCall(info *types.Info, e ast.Expr, into map[types.Object]bool) {
 	}
 	if se, ok := c.Fun.(*ast.SelectorExpr); ok {
 		switch se.Sel.Name {
-		case "Read", "Next", "ReadByte", "Write", "WriteByte":
-			if o := rootVar(info, se.X); o != nil && isReaderType(o.Type()) {
+		case "Read", "Next", "ReadByte", "Write", "WriteByte", "ReadFrom":
+			// (also on a reader / buffer that is a field: `p.certTable.Write(x)` writes through p)
+			if o := rootVar(info, se.X); o != nil && (isReaderType(o.Type()) || (isFieldPath(info, se.X) && isReaderType(typeOfIn(info, se.X)))) {
 				into[o] = true
 				if se.Sel.Name == "Read" && len(c.Args) == 1 {
 					if bo := rootVar(info, c.Args[0]); bo != nil {
